@@ -4,7 +4,8 @@ NOT_YET = {}
 chk("C03", "exploration",
     "Exhaustive native sweep of every (storage size, bit offset, width) triple through all accessor entry points of the "
     "embedded bit-field unit against a reference bit-vector model, the boundary subset again under Miri (UB / out-of-bounds), "
-    "plus generated C records whose bit-fields are written/read on both sides of the FFI boundary with whole-object comparison. "
+    "plus generated C records whose bit-fields are written/read on both sides of the FFI boundary with whole-object comparison, and "
+    "C++ class templates / derived structs with bit-fields compared byte-wise against a C++ reference program. "
     "Runtime monitoring: the verdict is an oracle over observed executions; it says nothing about records not generated.",
     "Trusts: the 20-line bit-vector model; clang 14 as definition of C bit-field layout/values; rustc/Miri semantics; x86_64 little-endian host only.",
     "runtime monitoring: reference-model differential sweep (native + Miri) and C<->Rust differential probes",
@@ -15,7 +16,8 @@ chk("C02", "exploration",
     "flexible arrays) x presentation option sets; one executable links a clang-compiled probe with a rustc-compiled probe that "
     "include!s the bindings; sizes, alignments, member offsets/widths/signedness and values written on either side are compared, "
     "objects live between canaries (memcheck on a sample in the thorough tier); bindgen's own const layout assertions are "
-    "evaluated by rustc. Held = no difference on any executed (header, option set).",
+    "evaluated by rustc. C++ class graphs (multiple inheritance, vptr, templates) and ~50 hand-written layout-hostile records are "
+    "judged by those assertions (const form and #[test] form, which is run). Held = no difference on any executed (header, option set).",
     "Trusts clang 14 / rustc 1.95 on the x86_64 host as the two specifications; the generator's model only names members. "
     "Compile failures of the bindings other than layout assertions are C01's and are counted inconclusive here.",
     "runtime monitoring: differential C<->Rust probe executables + metamorphic option sets",
@@ -92,7 +94,9 @@ chk("C01", "exploration",
     "editions, primitive and prelude names, '_', '$', tag/ordinary collisions —, C++ namespaces, ~110 hostile single constructs in C "
     "and C++) that clang accepts, x option sets sampled from a 68-group pool x edition 2018/2021/2024; the bindings are compiled by "
     "rustc in the matching edition (layout assertions are evaluated). Hostile regions where the unchanged tree already fails are "
-    "recorded as known findings with per-construct signatures.",
+    "recorded as known findings with per-construct signatures. Further families: C++ class libraries with collision-prone member names, "
+    "class/template graphs and template chains, and deterministic regression headers (every keyword in every identifier position, helper "
+    "types needed only inside a namespace, reproducers of repaired defects) that run on every invocation.",
     "rustc 1.95 defines valid Rust. Options documented as not compiling alone and C++ features documented as unsupported are excluded (DESIGN §4).",
     "runtime monitoring: generate-and-compile oracle over seeded header/option/edition space",
     "DESIGN.md §4 C01")
@@ -124,7 +128,9 @@ chk("C10", "exploration",
     "for each blocklisted type. The C+Rust probe executable compares sizes/alignments of all records and offsets/values of the "
     "unaffected ones with C; inventories show that blocklisted names are never defined but still named (and that rustc misses exactly "
     "those names without the user's definition), that opaque types expose only the blob, and that direct containers of blocklisted types "
-    "derive none of the nine traits.",
+    "derive none of the nine traits. C++ class graphs (bases, virtual methods, templates) with opaque classes / templates are judged "
+    "differentially on bindgen's own layout assertions (clang's numbers): an assertion that evaluates without the selection must still "
+    "evaluate with it; vouching callbacks, the hide annotation and blocklist+opaque overlaps are selection modes.",
     "Trust as C02. Compile failures that are consequences of recorded C01/C07 findings (packed vs align, opaque types and derives) are counted inconclusive.",
     "runtime monitoring: differential C<->Rust probes + inventory predicates under blocklist/opaque selections",
     "DESIGN.md §4 C10")
@@ -145,7 +151,10 @@ chk("C04", "exploration",
     "globals) compiled by clang and linked with a Rust caller generated from the model; every argument/return/global value is fixed by "
     "the orchestrator and observed on the other side; declared parameter/return kinds, signedness, widths and pointer constness are "
     "recovered from the bindings by trait inference on the function items and compared with C; link failures name the missing symbols.",
-    "x86_64 SysV host only (cross-target mangling is not executed); noreturn functions and C++ methods are not called.",
+    "Also: C++ class libraries (const/static/virtual/overloaded methods, constructors, destructors, inheritance, namespaces, by-value "
+    "aggregates) whose member functions are identified by their mangled symbols and called from a C++ and a Rust driver with transcript "
+    "comparison; ms_abi / noreturn functions, function-typedef callbacks, asm labels; symbol-name text checks for 6 non-host targets. "
+    "Calls are executed on the x86_64 SysV host only.",
     "runtime monitoring: differential call/return/global observation across the FFI boundary",
     "DESIGN.md §4 C04")
 
